@@ -206,6 +206,38 @@ func init() {
 		var s value = nativeObj{re}
 		return &s
 	}
+	externals["regexp.Compile"] = func(fr *frame, args []value) value {
+		compile := func(p string) value {
+			re, err := regexp.Compile(p)
+			if err != nil {
+				return tuple{(*value)(nil), fr.i.newError(err.Error())}
+			}
+			var s value = nativeObj{re}
+			return tuple{&s, iface{}}
+		}
+		if p, ok := args[0].(string); ok {
+			return compile(p)
+		}
+		return fr.concretiseStringCall(fr.i.ex.flatten(args[0]), compile)
+	}
+	reMatch := func(fr *frame, args []value) value {
+		re := (*args[0].(*value)).(nativeObj).v.(*regexp.Regexp)
+		subj := args[1]
+		if _, isStr := subj.(string); !isStr {
+			if _, isSym := subj.(SymString); !isSym {
+				subj = mkString(bytesSegs(subj)) // []byte subject
+			}
+		}
+		if s, ok := subj.(string); ok {
+			return re.MatchString(s)
+		}
+		return fr.concretiseStringCall(fr.i.ex.flatten(subj), func(s string) value { return re.MatchString(s) })
+	}
+	externals["(*regexp.Regexp).MatchString"] = reMatch
+	externals["(*regexp.Regexp).Match"] = reMatch
+	externals["(*regexp.Regexp).String"] = func(fr *frame, args []value) value {
+		return (*args[0].(*value)).(nativeObj).v.(*regexp.Regexp).String()
+	}
 	externals["regexp.QuoteMeta"] = func(fr *frame, args []value) value {
 		if s, ok := args[0].(string); ok {
 			return regexp.QuoteMeta(s)
